@@ -264,11 +264,22 @@ def near_misses():
     res = dict(violations=[], inconclusive=[], stats={}, samples=[])
     cases = ["S-1-5-18\n", "S-1-5-\u0661\u0668", "S-1-5-+18", "S-1-5- 18", "S-1-5--18", "S-1--5-18", " S-1-5-18", "S-1-5-18 ", "S-1-5-4294967296", "S-1-281474976710656-1",
              "S-1-18446744073709551616-1", "S-1-5", "S-1-5-", "s-1-5-18", "S-10-5-18", "S-1-5-1-2-3-4-5-6-7-8-9-10-11-12-13-14-15-16", "", "S-1-5-18\r", "S-1-5-1_8"]
+    cases += ["S-1-5-18\r\n", "\tS-1-5-18", "S-1-5-18\x0b", "\u00a0S-1-5-18", "S-1-5-18\u2003", "S-1-5-18\x00"]
     for s in cases:
         out = _native_sid(s)
         res["samples"].append(dict(near_miss=repr(s), native=out[0]))
         if out[0] != "ValueError":
             res["violations"].append(dict(label="near-miss accepted", detail=f"{s!r} -> {out[0]}", inputs={"sid": repr(s)}, confirmed=True, native=f"{out[0]} {out[1]!r}"[:200]))
+        # the same string through the public path: ProtectionDescriptor.parse(...).get_target_sd() (what ncrypt_protect_secret does with its argument)
+        try:
+            sd = ("ok", _blob.ProtectionDescriptor.parse(s).get_target_sd())
+        except ValueError as e:
+            sd = ("ValueError", str(e))
+        except Exception as e:
+            sd = (type(e).__name__, str(e))
+        if sd[0] != "ValueError":
+            res["violations"].append(dict(label="near-miss accepted by ProtectionDescriptor.parse(...).get_target_sd()", detail=f"{s!r} -> {sd[0]}", inputs={"sid": repr(s), "path": "parse"},
+                                          confirmed=True, native=f"{sd[0]} {sd[1]!r}"[:200]))
     return res
 
 
